@@ -98,9 +98,29 @@ func (e *endpoint) count() int {
 }
 
 func newEndpoint(conn net.Conn, server bool) *endpoint {
-	e := &endpoint{ErrChan: make(chan error, 16)}
-	e.Mux = muxer.New(conn)
-	e.Mux.SetDiffusionMode(muxer.DiffusionModeInitiatorAndResponder)
+	mux := muxer.New(conn)
+	mux.SetDiffusionMode(muxer.DiffusionModeInitiatorAndResponder)
+	e := newProto(mux, server, stateMap())
+	e.P.Start()
+	e.Mux.Start()
+	return e
+}
+
+// rxClientStateMap: the server has agency in both states, so the CLIENT
+// (initiator) instance is the receiving side (duplex scenario: what a peer's
+// server sends to our client travels with the response bit set).
+func rxClientStateMap() protocol.StateMap {
+	sm := stateMap()
+	for k, e := range sm {
+		e.Agency = protocol.AgencyServer
+		sm[k] = e
+	}
+	return sm
+}
+
+// newProto creates (does not start) one protocol instance on an existing muxer.
+func newProto(mux *muxer.Muxer, server bool, sm protocol.StateMap) *endpoint {
+	e := &endpoint{ErrChan: make(chan error, 16), Mux: mux}
 	role := protocol.ProtocolRoleClient
 	if server {
 		role = protocol.ProtocolRoleServer
@@ -109,10 +129,8 @@ func newEndpoint(conn net.Conn, server bool) *endpoint {
 		Name: "c10", ProtocolId: protoId, ErrorChan: e.ErrChan, Muxer: e.Mux,
 		Mode: protocol.ProtocolModeNodeToNode, Role: role,
 		MessageHandlerFunc: e.handler, MessageFromCborFunc: fromCbor,
-		StateMap: stateMap(), InitialState: stIdle,
+		StateMap: sm, InitialState: stIdle,
 	})
-	e.P.Start()
-	e.Mux.Start()
 	return e
 }
 
@@ -214,10 +232,18 @@ func (t *tapConn) frames() (payloads [][]byte, ids []uint16, ok bool) {
 }
 
 // frame builds one raw mux segment as the scripted peer (initiator side).
-func frame(payload []byte) []byte {
+func frame(payload []byte) []byte { return frameDir(payload, false) }
+
+// frameDir: resp = the response bit (segment from the peer's responder, for
+// our initiator instance).
+func frameDir(payload []byte, resp bool) []byte {
 	buf := make([]byte, 8+len(payload))
 	binary.BigEndian.PutUint32(buf[0:4], 1)
-	binary.BigEndian.PutUint16(buf[4:6], protoId)
+	id := uint16(protoId)
+	if resp {
+		id |= 0x8000
+	}
+	binary.BigEndian.PutUint16(buf[4:6], id)
 	binary.BigEndian.PutUint16(buf[6:8], uint16(len(payload)))
 	copy(buf[8:], payload)
 	return buf
